@@ -55,7 +55,8 @@ LEANCHECKER = True
 RULE = ("a case is one (region, query position, degin) triple evaluated through the real add_circles/add_poly + "
         "sky_within; non-trivial = the Spec constrains the answer (position within the radius / in the polygon "
         "interior, or farther than 3 pixel sizes beyond the circle / circumscribed circle) or the position is "
-        "NaN/inf; distinct by (shape id, position bits, degin)")
+        "NaN/inf; distinct by (shape id, position bits, degin).  The bulk positions of the size-threshold cases (big disc ring, "
+        "> 2^20-position query) are counted in evaluations only, not in distinct_nontrivial (histogram keys 'bulk ...')")
 ASSUMPTIONS = [
     "HEALPix geometry inside healpy is ASSUMED (Lean structure Healpix: Grid / DiscQuery / PolyQuery / nest) and only "
     "SAMPLED here at small nside: inclusive query_disc returns every pixel meeting the disc and only pixels whose centre "
